@@ -562,7 +562,7 @@ pub fn plan(prop: &str, tier: &str) -> Option<Plan> {
                 bounds = json!({"E1": "all predicates (incl. 2^k subsets of class representatives) at every point of the growth path to N=64 (4 hashers) / 130, and structural predicates after <=1 deviation up to N=18", "E2": "fixpoint u=3"});
             } else {
                 for &hk in &HS4 {
-                    s.push(e1(prop, "u32", hk, 0, a, &["cursor"], 48, 2, 1, "chk", 1200.0));
+                    s.push(e1(prop, "u32", hk, 0, a, &["cursor"], 36, 2, 1, "chk", 1200.0));
                     s.push(e1(prop, "tk", hk, 0, a, &["cursor"], 31, 2, 1, "chk", 1200.0));
                 }
                 s.push(e1(prop, "u32", H_GOOD, 0, "pred", &["cursor"], 300, 1, 0, "chk", 600.0));
@@ -572,7 +572,7 @@ pub fn plan(prop: &str, tier: &str) -> Option<Plan> {
                 s.push(e2(prop, "zd", H_GOOD, "mut+bulk2+shape2+pred", &["cursor"], 1, "chk", 300.0));
                 s.push(as_set(e2(prop, "zst", H_GOOD, "skey+sshape2+siter", &["cursor"], 1, "chk", 300.0)));
                 s.push(e1(prop, "big", H_GOOD, 0, a, &["cursor"], 33, 2, 1, "chk", 1200.0));
-                bounds = json!({"E1": "all predicates at every state with <=1 deviation up to N=48", "E2": "fixpoint u=4"});
+                bounds = json!({"E1": "all predicates at every state with <=1 deviation up to N=36", "E2": "fixpoint u=4"});
             }
         }
         "C10" => {
@@ -634,7 +634,7 @@ pub fn plan(prop: &str, tier: &str) -> Option<Plan> {
             } else {
                 for &hk in &HS4 {
                     s.push(e1(prop, "u32", hk, 0, "ch3", &fl, 130, 1, 0, "chk", 900.0));
-                    s.push(e1(prop, "u32", hk, 0, "mut1+shape/ch3", &fl, 40, 2, 1, "chk", 1500.0));
+                    s.push(e1(prop, "u32", hk, 0, "mut1+shape/ch3", &fl, 24, 2, 1, "chk", 1500.0));
                     s.push(e1(prop, "tk", hk, 0, "ch3", &fl, 64, 1, 0, "chk", 900.0));
                 }
                 s.push(e1(prop, "u32", H_GOOD, 0, "ch3", &fl, 40, 1, 1, "chk", 1500.0));
@@ -642,7 +642,7 @@ pub fn plan(prop: &str, tier: &str) -> Option<Plan> {
                 s.push(e2(prop, "u32", H_GOOD, "ch2+shape2", &fl, 3, "chk", 1500.0));
                 s.push(e2(prop, "u32", H_LOW, "ch3+shape2", &fl, 2, "chk", 1500.0));
                 s.push(e2(prop, "zst", H_GOOD, "ch3+shape2", &fl, 1, "chk", 300.0));
-                bounds = json!({"E1": "chains of length <=3 on every key class at every point of the growth path to N=130 and after one shaping deviation to N=40; on every concrete key to N=40", "E2": "fixpoint u=3 (length <=2) / u=2 (length <=3); ZST"});
+                bounds = json!({"E1": "chains of length <=3 on every key class at every point of the growth path to N=130 and after one shaping deviation to N=24; on every concrete key to N=40", "E2": "fixpoint u=3 (length <=2) / u=2 (length <=3); ZST"});
             }
         }
         "C07" => {
